@@ -262,6 +262,7 @@ theorem handleChunk_sndShape (e : Ep) (ch : Chunk) (B : Nat) (hB : e.snd.cum ≤
   | shutdownComplete =>
     show (handleShutdownComplete e).snd.sentq = _ ∧ (handleShutdownComplete e).snd.wlog = _ ∧ (handleShutdownComplete e).snd.cum ≤ B
     rw [handleShutdownComplete_snd]; exact ⟨rfl, rfl, hB⟩
+  | abort => exact ⟨rfl, rfl, hB⟩
 
 theorem AcksLe.cons {B : Nat} {ch : Chunk} {p : Pkt} (h : AcksLe B (ch :: p)) : AcksLe B [ch] ∧ AcksLe B p :=
   ⟨⟨fun c g hm => h.1 c g (by simp only [List.mem_singleton] at hm; simp [hm]),
@@ -327,6 +328,7 @@ theorem handleChunk_rcvStep (e : Ep) (ch : Chunk) (sq wlog : List Msg) (h : RcvR
   | shutdownComplete =>
     show RcvStep sq wlog e.rcv (handleShutdownComplete e).rcv
     rw [handleShutdownComplete_rcv]; exact RcvStep.refl h hp
+  | abort => exact RcvStep.refl h hp
 
 theorem foldl_rcvStep (p : Pkt) (e : Ep) (sq wlog : List Msg) (h : RcvRel sq e.rcv) (hp : PrefixOk wlog e.rcv)
     (hd : DataOk sq p) : RcvStep sq wlog e.rcv (p.foldl handleChunk e).rcv := by
@@ -512,15 +514,21 @@ theorem gather_out (e : Ep) (d : List (List (Nat × Nat))) :
     SndExt e.snd (gather e d).1.snd ∧ OutOk (gather e d).1.snd.sentq e.rcv.pl (gather e d).2.1 := by
   simp only [gather]
   split
-  · rw [gatherShut_snd]
-    exact ⟨SndExt.refl _, gatherShut_out e _⟩
-  · obtain ⟨a1, a2⟩ := gatherState_out (gatherPrio e).1 d
-    rw [gatherPrio_snd] at a1
-    rw [gatherPrio_rcv] at a2
-    refine ⟨a1, OutOk.append ?_ a2⟩
-    obtain ⟨l, hl⟩ := a1.ext
-    rw [hl]
-    exact (gatherPrio_out e e.snd.sentq).ext l
+  · refine ⟨SndExt.refl _, ?_⟩
+    intro p hp
+    simp only [List.mem_singleton] at hp
+    subst hp
+    refine ⟨fun t m s k hm => ?_, fun c g hm => ?_, fun c hm => ?_⟩ <;> simp at hm
+  · split
+    · rw [gatherShut_snd]
+      exact ⟨SndExt.refl _, gatherShut_out e _⟩
+    · obtain ⟨a1, a2⟩ := gatherState_out (gatherPrio e).1 d
+      rw [gatherPrio_snd] at a1
+      rw [gatherPrio_rcv] at a2
+      refine ⟨a1, OutOk.append ?_ a2⟩
+      obtain ⟨l, hl⟩ := a1.ext
+      rw [hl]
+      exact (gatherPrio_out e e.snd.sentq).ext l
 
 theorem writeLoopPass_out (e : Ep) (d : List (List (Nat × Nat))) :
     SndExt e.snd (writeLoopPass e d).1.snd ∧ OutOk (writeLoopPass e d).1.snd.sentq e.rcv.pl (writeLoopPass e d).2 ∧
